@@ -92,16 +92,6 @@ def judge_pair(case, out):
     i = next((k for k in range(min(len(a), len(b))) if a[k] != b[k]), min(len(a), len(b)))
     return 'bad wrapped-stack-differs@%d bare=%s wrapped=%s' % (i, a[i] if i < len(a) else 'end', b[i] if i < len(b) else 'end')
 
-def attribute(stream, case, impl, model, why):
-    # F25: an absent layer (None / empty Vec / Identity) in a stack that also has a statically refusing layer
-    if stream == 'pair':
-        wrapped = case.split(' ;; ')[1].split()
-        has_absent = any(t in ('none', 'empty') or 'i' in t.split(':')[:-1] for t in wrapped)
-        has_refusing = any(t.split(':')[-1].startswith('N') for t in wrapped)
-        if has_absent and has_refusing and re.search(r'wrapped=\d+:(enabled|callsite)$', why):
-            return 'F25'
-    return None
-
 def nontrivial_notify(case, out):
     # at least two layers, something delivered, and either a veto or a wrapper in play
     return out.count(':event') + out.count(':new_span') >= 2 and (':' in case.split(' ;; ')[0] or 'M' in case or 'E' in case) and case.count('P') + case.count('M') + case.count('E') >= 2
@@ -135,14 +125,14 @@ PROPERTY = {
         'note': "Trusted: Lean kernel; propext/Classical.choice/Quot.sound; the translator's classification of an impl body as `forward` (the only calls on the wrapped value are to the same-named method) — behaviour "
                 "of those bodies (e.g. calling twice) is covered by the differential run, not the table; pick_interest for unfiltered stacks is hand-modelled; callsite registration and the checks travel outer-first by design "
                 "(pick_interest short-circuit), so the order clause is proved for the data notifications. Repaired: F4/F5 (on_register_dispatch not forwarded by Box/Arc/Layered/fmt::Collector), Vec event_enabled/on_id_change, "
-                "reload on_subscribe/event_enabled, F6/F24 (Vec::register_callsite), F23 (and_then dispatch-registration order).",
+                "reload on_subscribe/event_enabled, F6/F24 (Vec::register_callsite), F23 (and_then dispatch-registration order), F25/F26 (and_then nodes treating their inner subscriber as the registry).",
         'technique': 'Lean 4 proof (induction on and_then trees over generated call tables; kernel-decided table facts) + differential run against real wrapped layer stacks',
     },
     'lean_module': 'TracingModel.Props.C09',
     'namespace': 'C09',
     'units': ['Forwarding'],
     'required_theorems': ['C09.traits_covered', 'C09.passthrough_collect', 'C09.passthrough_subscribe', 'C09.passthrough_filter', 'C09.table_data', 'C09.table_checks', 'C09.table_collect',
-                          'C09.each_layer_once_inner_first', 'C09.veto_is_conjunction', 'C09.refines_spec', 'C09.event_veto_stops_all', 'C09.meta_veto_stops_all', 'C09.absent_transparent', 'C09.f25_witness', 'C09.layered_once_inner_first', 'C09.veto_stops_all'],
+                          'C09.each_layer_once_inner_first', 'C09.veto_is_conjunction', 'C09.refines_spec', 'C09.event_veto_stops_all', 'C09.meta_veto_stops_all', 'C09.absent_transparent', 'C09.f25_repaired', 'C09.layered_once_inner_first', 'C09.veto_stops_all'],
     'streams': [_n, _p, _w],
     'rule': 'stream notify: a stack of 1-5 recording layers (plain / metadata-vetoing / event-vetoing / statically refusing above a level), nested and_then groups, random pass-through wrappers (up to 3 deep), None / empty-Vec '
             'layers, optionally the whole collector in Box<dyn Collect> or Arc; a history of events, spans, enter/exit/record/follows-from/close over 4-10 callsites; compared = the complete ordered log of every notification '
